@@ -273,12 +273,15 @@ def passage_nodes_parabolic (omega q t : Num) (ascending : Bool) : PyRes (Num ×
 
 /-! ### Phase angle and illuminated fraction (Coordinates.py:3140, 3173) -/
 
-/-- `phase_angle(sun_dist, earth_dist, sun_earth_dist)`: degree value of the Angle. -/
+/-- `phase_angle(sun_dist, earth_dist, sun_earth_dist)`: degree value of the Angle (with the clamp of a27247f). -/
 def phase_angle (sd ed sed : Num) : PyRes Num :=
-  -- angle = acos((sd*sd + ed*ed - sed*sed) / (2.0 * sd * ed))
+  -- cosine = ((sd*sd + ed*ed - sed*sed) / (2.0 * sd * ed))
   match fdiv (sd * sd + ed * ed - sed * sed) (2.0 * sd * ed) with
   | .error x => .error x
   | .ok c =>
+    -- if abs(cosine) > 1.0 and abs(cosine) < 1.0 + 1e-12: cosine = 1.0 if cosine > 0.0 else -1.0
+    let c := if plt 1.0 (pabs c) && plt (pabs c) (1.0 + 1e-12) then (if plt 0.0 c then 1.0 else -1.0) else c
+    -- angle = acos(cosine)
     match facos c with
     | .error x => .error x
     | .ok ang => .ok (angle_of_rad ang)   -- Angle(angle, radians=True)
